@@ -270,8 +270,23 @@ def rule_clipperd(db, chk, cfg, rule="SCALE.ClipperD"):
     ctor = ctor[0]
     txt = canon(ctor.body)
     p = ctor.params[0].get("name")
-    inst("scale_ derives from pow(10, precision)", re.search(r'scale_ = .*pow\(10, %s\)' % p, txt) is not None, ctor, "scale_",
-         "ClipperD's scale_ is no longer derived from pow(10, precision): " + txt[:120])
+    # scale_ depends on the precision (through locals if need be); its value is decided by SCALE.ClipperD-table
+    deps = {}
+    for x in walk(ctor.body):
+        if x.get("kind") == "VarDecl" and x.get("name"):
+            deps[x["name"]] = {y.get("referencedDecl", {}).get("name") for y in walk(x) if y.get("kind") == "DeclRefExpr"}
+    reach = set()
+    for x in walk(ctor.body):
+        if x.get("kind") == "BinaryOperator" and x.get("opcode") == "=" and canon(kids(x)[0]) == "scale_":
+            todo = [y.get("referencedDecl", {}).get("name") for y in walk(kids(x)[1]) if y.get("kind") == "DeclRefExpr"]
+            while todo:
+                nm = todo.pop()
+                if nm in reach:
+                    continue
+                reach.add(nm)
+                todo.extend(deps.get(nm, ()))
+    inst("scale_ derives from the precision", p in reach, ctor, "scale_",
+         "ClipperD's scale_ no longer depends on the precision argument: " + txt[:120])
     inst("invScale_ = 1 / scale_", "(invScale_ = (1 / scale_))" in txt, ctor, "invScale_",
          "ClipperD's invScale_ is not 1 / scale_: " + txt[:160])
     n += 2
@@ -293,7 +308,7 @@ def rule_clipperd(db, chk, cfg, rule="SCALE.ClipperD"):
     ok = bool(emps)
     for c in emps:
         a = db.call_args(c)
-        if len(a) < 2 or not all(re.match(r'^\(lastPt\.[xy] \* %s\)$' % sp, canon(x)) for x in a[:2]):
+        if len(a) < 2 or not (re.match(r'^\(\(?(\w+)\)?\.x \* \(?%s\)?\)$' % sp, canon(a[0])) and re.match(r'^\(\(?(\w+)\)?\.y \* \(?%s\)?\)$' % sp, canon(a[1]))):
             ok = False
     inst("BuildPathD multiplies x and y of every emitted vertex by inv_scale", ok, bp, "inv_scale",
          "BuildPathD no longer emits (x * inv_scale, y * inv_scale) for every vertex")
